@@ -560,8 +560,8 @@ def r6(repo, run):
     # every other builder method that takes a `safe` flag applies it to whatever it adds: each document it adds comes from a
     # source-adding call that receives this very flag (nothing is added that was parsed under somebody else's flag)
     for nm, mf in sorted(adders.items()):
-        if nm == 'add_source':
-            continue
+        if nm == 'add_source' or only_reached_from(repo, mf.qualname, {add.qualname}):
+            continue        # (private helpers of add_source are part of its paths above)
         n_add = 0
         for p in tr.paths_of(repo, mf, no_inline=NO_INLINE | (set(adders) - {nm}), follow_exceptions=False):
             if p.status != 'return':
